@@ -1,6 +1,7 @@
 package e2e
 
 import (
+	"time"
 	"fmt"
 	"sort"
 	"strings"
@@ -334,4 +335,77 @@ func CheckC19(o *Outcome) *vh.Finding {
 		prevDisk = so.Disk
 	}
 	return nil
+}
+
+// CheckC17: reloads at arbitrary moments of the traffic. Nothing is lost or altered (C01's oracle over the whole
+// scenario), every reload is counted once under the right status, a failed reload has no effect, a successful one is in
+// effect for every connection opened after it returned, and the routing (tag = key set) never changes.
+func CheckC17(o *Outcome) *vh.Finding {
+	if f := CheckC01(o); f != nil {
+		return f
+	}
+	var firstValidEnd time.Time
+	anyValid, firstValidGen := false, 0
+	for _, r := range o.Reloads {
+		wantOK, wantFailed := 0.0, 1.0
+		if r.Variant == "valid" {
+			wantOK, wantFailed = 1, 0
+		}
+		if r.OK != wantOK || r.Failed != wantFailed {
+			return vh.Fail("reload:counter", "generation %d: a reload with the %s configuration changed slogagent_reloads_total by success=%v failure=%v (expected %v/%v)", r.Gen, r.Variant, r.OK, r.Failed, wantOK, wantFailed)
+		}
+		if r.Variant == "valid" && !anyValid {
+			anyValid, firstValidEnd, firstValidGen = true, r.End, r.Gen
+		}
+	}
+	check := func(where string, tag string, ev *vh.ForwardEvent) *vh.Finding {
+		st := stampOf(ev.Fields["log"])
+		exp := o.Expected[st]
+		if exp == nil {
+			return nil // reported by C01's oracle
+		}
+		if tag != "e2e."+exp.App {
+			return vh.Fail("reload:tag-changed", "%s: record %s of app %s was delivered under tag %q (the incompatible configuration must never take effect)", where, st, exp.App, tag)
+		}
+		added, has := ev.Fields["added"]
+		if has && added != "reloaded" {
+			return vh.Fail("reload:field-altered", "%s: record %s has added=%q", where, st, added)
+		}
+		if has && (!anyValid || exp.Gen < firstValidGen) {
+			return vh.Fail("reload:failed-reload-had-effect", "%s: record %s carries the field added by the new configuration although no reload had succeeded by its generation (reloads: %s)", where, st, o.reloadSummary())
+		}
+		if !has && anyValid && exp.DialAt.After(firstValidEnd) {
+			return vh.Fail("reload:new-config-not-in-effect", "%s: record %s was sent on a connection opened %v after a successful reload had returned, but was processed without the new configuration's transform (reloads: %s)", where, st, exp.DialAt.Sub(firstValidEnd), o.reloadSummary())
+		}
+		return nil
+	}
+	for i, msgs := range o.Servers {
+		for _, m := range msgs {
+			for _, ev := range m.Msg.Events {
+				if f := check(fmt.Sprintf("output %d, chunk %s at the upstream", i, m.Msg.OptChunk), m.Msg.Tag, ev); f != nil {
+					return f
+				}
+			}
+		}
+	}
+	for _, so := range o.Stops {
+		for i := range so.Disk {
+			for name, msg := range so.Disk[i] {
+				for _, ev := range msg.Events {
+					if f := check(fmt.Sprintf("output %d, chunk file %s after stop %d", i, name, so.Gen), msg.Tag, ev); f != nil {
+						return f
+					}
+				}
+			}
+		}
+	}
+	return nil
+}
+
+func (o *Outcome) reloadSummary() string {
+	var l []string
+	for _, r := range o.Reloads {
+		l = append(l, fmt.Sprintf("gen %d %s (%.1f ms)", r.Gen, r.Variant, float64(r.End.Sub(r.Start).Microseconds())/1000))
+	}
+	return strings.Join(l, ", ")
 }
